@@ -129,6 +129,9 @@ let run path =
             (match c.st.queue with
              | (_, hd) :: _ when not (body_eqb b hd) && L.exists (fun (_, x) -> body_eqb b x) c.st.queue ->
                Some ("fifo", "sent=" ^ s_of_body b ^ " but the head of the queue is " ^ s_of_body hd)
+             | _ when L.exists (fun (_, x) -> body_eqb b x) c.st.dispatched ->
+               Some ("fifo", "sent=" ^ s_of_body b ^ " is not the next queued command, it equals a command that was taken from the queue before (" ^
+                             (match c.st.queue with (_, hd) :: _ -> "head of the queue: " ^ s_of_body hd | [] -> "queue empty") ^ ")")
              | _ -> None)
           | EFut (n, _) ->
             (match fut_get n c.st.futs with
